@@ -31,6 +31,10 @@ func (c05) Gen(seed uint64, run int, tier string) *Plan {
 	r := genRand(seed, "C05", run)
 	cfg := world.DefaultConfig()
 	cfg.SendLogs = r.Intn(4) == 0
+	if r.Intn(4) == 0 {
+		// a third-party service is connected: it may queue tasks of its own for any session
+		cfg.Service = &world.ServiceCfg{Endpoint: "svc", Password: "svc-pass"}
+	}
 	p := &Plan{Engine: EngineVersion, Property: "C05", Seed: seed, Run: run, Tier: tier, Cfg: cfg, Knobs: map[string]int{}}
 	p.Knobs["demons"] = 2 + r.Intn(2)
 	p.Knobs["ops"] = 1
@@ -49,6 +53,9 @@ func (c05) Gen(seed uint64, run int, tier string) *Plan {
 			p.Actions = append(p.Actions, Action{Kind: "task", B: d, D: r.Intn(500), A: r.Intn(4)})
 		case x < 40:
 			p.Actions = append(p.Actions, Action{Kind: "checkin", B: d})
+		case x < 41 && cfg.Service != nil:
+			// the service queues a task of its own (a raw payload, no request id) for the session
+			p.Actions = append(p.Actions, Action{Kind: "svctask", B: d})
 		case x < 43:
 			// relay traffic: a SOCKS client connects through a proxy of the agent; the teamserver
 			// queues its CONNECT for the agent itself (a task no operator issued, without request id)
@@ -137,8 +144,15 @@ func (c05) Exec(p *Plan, dir string) *Result {
 		}
 		return len(ag.d.Tasks) - n0
 	}
+	var svc *world.ServiceClient
+	if p.Cfg.Service != nil {
+		sc := w.NewServiceClient("svc")
+		if sc.Connect() && sc.Register(p.Cfg.Service.Password) {
+			svc = sc
+		}
+	}
 	w.Sim.SetPolicy(p.Policy)
-	res.FP(p.Policy.Name, len(ags), p.Cfg.SendLogs)
+	res.FP(p.Policy.Name, len(ags), p.Cfg.SendLogs, svc != nil)
 	taskN := 0
 	outstanding := func(a *c05Agent, onlyHanded, onlyQueued bool) []uint32 {
 		var o []uint32
@@ -261,6 +275,16 @@ func (c05) Exec(p *Plan, dir string) *Result {
 			wit.Pump()
 			res.Probe("issue-racing-retire")
 			res.FP("race")
+		case "svctask":
+			if svc == nil || ag.parent != nil {
+				continue
+			}
+			svc.AgentTaskAdd(ag.d.NameID(), []byte("third-party-task"))
+			w.Sim.Settle()
+			wit.Pump()
+			ag.relayed = true
+			res.Probe("tasks-queued-by-a-service")
+			res.FP("svctask")
 		case "relay":
 			if ag.parent != nil {
 				continue
